@@ -73,7 +73,8 @@ class x12xml_simple(x12xml):
             if child_node.usage == 'N' or seg_data.get('%02i' % (i + 1)).is_empty():
                 pass  # Do not try to ouput for invalid or empty elements
             elif child_node.is_composite():
-                (xname, attrib) = self._get_comp_info(seg_node_id)
+                # labelled with its reference designator (SVC01), like every other element
+                (xname, attrib) = self._get_comp_info('%s%02i' % (seg_node.id, child_node.seq))
                 self.writer.push(xname, attrib)
                 comp_data = seg_data.get('%02i' % (i + 1))
                 for j in range(len(comp_data)):
